@@ -754,6 +754,6 @@ var _ = storage.SeriesRef(0)
 var _ = chunkenc.EncXOR
 
 func main() {
-	common.Main(common.Prop{ID: "C10", Facts: facts, Gen: gen, Run: run, QuickN: 240, ThoroughN: 2400,
+	common.Main(common.Prop{ID: "C10", Facts: facts, Gen: gen, Run: run, QuickN: 180, ThoroughN: 2400,
 		Preamble: "Open Scope Z_scope.\n"})
 }
